@@ -33,6 +33,7 @@ SPEC = dict(
         "container decoding is modelled as a codec (zero value, ReadFrom as a function of the previous content, IsEmpty); the byte-level protobuf is not modelled: the harness decodes every scripted payload with the real ReadFrom into a fresh container to obtain its class",
         "peer manager: modelled only as 'each attempt gets some peer and reports Noop/Cooldown/Blacklist'; the harness uses the real peers.Manager with a one-hour cooldown; pool internals are C17's",
         "mocked: libp2p network (mocknet; stream error codes are injected at the client host because mocknet drops them), the caller's context (an event-driven context that ends when a scripted peer says so; per-attempt timeouts are real 400 ms timers, cases disturbed by machine load are re-run), the bitswap exchange (in-process: computes the CID of every delivered body with the registered multihash, i.e. the real hasher, and forwards wanted blocks)",
+        "block stores: the bitswap getter is run with both block stores the node types wire in (nodebuilder/share: a blockstore over a datastore for light nodes; the read-only bitswap.Blockstore over the EDS store wrapped with metrics for bridge nodes, here over a store that does not hold the block); the oracle reports any panic",
         "schedules: each GetSamples slot gets an arbitrary script of its own (a sibling's failure appears as a Deadline in the slot's script); the Go scheduler's choice among them is not enumerated",
     ],
 )
